@@ -22,6 +22,15 @@ class CallbackError(Exception):
     """raised by a simulated callback"""
 
 
+class Unpicklable:
+    """a task result that cannot cross a process boundary (holds a lock)"""
+
+    def __init__(self, i):
+        import threading
+        self.i = i
+        self.lock = threading.Lock()
+
+
 class PoolMP(FakeMP):
     def describe(self, item):
         # no reprs of arbitrary objects in the event log (addresses would break determinism)
@@ -81,7 +90,8 @@ class Engine:
         P = self.P
         # --- swarm: which fault kinds are enabled in this run
         on = {k: ch.draw(2, "swarm-" + k) == 1 for k in
-              ("raise", "net", "retire", "slow_consumer", "slow_callback", "feeder", "start", "exit", "stall", "cb_raise")}
+              ("raise", "net", "retire", "slow_consumer", "slow_callback", "feeder", "start", "exit", "stall", "cb_raise",
+               "unpicklable")}
         skind = ch.weighted([(5, "uniform"), (3, "prio"), (1, "starve-parent"), (1, "starve-worker")], "strategy")
         if skind == "prio":
             strategy = {"kind": "prio", "changes": [ch.draw(400, "chg") for _ in range(ch.draw(4, "nchg"))]}
@@ -100,6 +110,7 @@ class Engine:
         durs = [ch.pick([0.0, 0.0, 0.3, 0.95, 1.0, 1.05, 2.5, 7.0], "dur") for _ in range(n)]
         raising = set(i for i in range(n) if on["raise"] and ch.draw(5, "raises") == 0)
         transient = [ch.pick([0, 0, 0, 1, 2, 3, 4], "transient") if on["net"] else 0 for _ in range(n)]
+        unpick = set(i for i in range(n) if on["unpicklable"] and i not in raising and ch.draw(6, "unpicklable") == 0)
         nested = ch.draw(2, "nested-net") == 1
         tolerate = ch.draw(4, "tolerate") != 0
         use_irun = ch.draw(3, "irun") != 0
@@ -166,6 +177,9 @@ class Engine:
             if i in raising:
                 fire(faults, "task_raise")
                 raise InjectedError("boom %d" % i)
+            if i in unpick:
+                fire(faults, "unpicklable_result")
+                return Unpicklable(i)
             if as_gen:
                 return (x for x in payload(i))
             return payload(i)
@@ -270,12 +284,12 @@ class Engine:
         multi = n >= 2 and par >= 2
         scenario = {"n": n, "parallel": par, "max_tasks": max_tasks, "net_retry": net_retry, "task_timeout": task_timeout,
                     "ids": "int" if idkind == 0 else "str" if idkind == 1 else "path-tuple", "durations": durs,
-                    "raising": sorted(raising), "transient": transient, "nested_net_exc": nested, "tolerate_fails": tolerate,
+                    "raising": sorted(raising), "unpicklable_results": sorted(unpick), "transient": transient, "nested_net_exc": nested, "tolerate_fails": tolerate,
                     "api": "irun" if use_irun else "run", "consumer_delays": cons, "callbacks": cbmode, "callback_delays": cbdelay,
                     "callback_raises": sorted(cbraise), "task_returns_generator": as_gen, "delays": cfg, "strategy": strategy,
                     "swarm": {k: v for k, v in on.items()}}
         violation = self._oracle(end, leftovers, outcome, delivered, ids, n, par, raising, transient, net_retry, tolerate,
-                                 use_irun, cbmode, cbraise, payload, mp, fos, multi)
+                                 use_irun, cbmode, cbraise, payload, mp, fos, multi, unpick)
         h = hashlib.sha256()
         for ev in sim.trace:
             h.update(("%s|%s;" % (ev[2], ev[3])).encode())
@@ -285,13 +299,11 @@ class Engine:
 
     # ------------------------------------------------------------------ oracle
     def _oracle(self, end, leftovers, outcome, delivered, ids, n, par, raising, transient, net_retry, tolerate,
-                use_irun, cbmode, cbraise, payload, mp, fos, multi):
+                use_irun, cbmode, cbraise, payload, mp, fos, multi, unpick=()):
         P = self.P
 
         def V(clause, key, **detail):
             return {"clause": clause, "key": key, "detail": detail}
-        if mp.unpicklable:
-            return V("unpicklable-queue-item", "unpicklable", items=mp.unpicklable[:3])
         if end is not None:
             return V(end[0], end[0], why=end[1], leftovers=leftovers)
         if leftovers:
@@ -302,6 +314,10 @@ class Engine:
                 exp_fail[i] = "net"
             elif i in raising:
                 exp_fail[i] = "raise"
+            elif i in unpick and par > 1 and n > 1:
+                # a result that cannot be pickled must come back as a failure of that id (multi-process path only:
+                # the single-process path hands the object over directly)
+                exp_fail[i] = "unpicklable"
         exc = outcome.get("exc")
         if not use_irun and "run" in outcome:
             ok, fail = outcome["run"]
@@ -323,11 +339,15 @@ class Engine:
                     continue
                 if not isinstance(e, P.PickleSafeException):
                     return V("wrong-failure-object", "wrong-exc-type", id=repr(dev_id), exc=repr(e))
-                want = InjectedError if exp_fail[i] == "raise" else (ConnectionResetError, BrokenPipeError, RuntimeError)
+                want = {"raise": InjectedError, "unpicklable": (TypeError, AttributeError, Exception)}.get(
+                    exp_fail[i], (ConnectionResetError, BrokenPipeError, RuntimeError))
                 if not issubclass(e.orig_exc_cls, want) or repr(e.device_id) != repr(dev_id):
                     return V("wrong-failure-attribution", "wrong-exc-attr", id=repr(dev_id), exc=repr(e),
                              exc_device=repr(e.device_id))
             else:
+                if i in unpick:
+                    if e is None and isinstance(result, Unpicklable) and result.i == i:
+                        continue            # single-process path: the very object is handed over
                 if e is not None:
                     if cb_fails and isinstance(e, CallbackError):
                         continue
@@ -356,7 +376,7 @@ class Engine:
             return V("missing-failure", "no-raise-with-tolerate-off", expected=sorted(exp_fail), delivered=len(seen), n=n)
         if len(seen) != n:
             lost = [repr(ids[i]) for i in range(n) if i not in seen]
-            return V("lost-result", "lost", lost=lost[:10], delivered=len(seen), n=n)
+            return V("lost-result", "lost", lost=lost[:10], delivered=len(seen), n=n, dropped_by_queue=mp.unpicklable[:3])
         if use_irun or "run" in outcome:
             td = outcome.get("tasks_done")
             if td != n:
